@@ -3,6 +3,9 @@
 package c09
 
 import (
+	"strings"
+
+	"golang.org/x/net/idna"
 	"fmt"
 	"sort"
 	"sync"
@@ -321,4 +324,63 @@ func judgePipe(t *pipeTxn) (out []finding, unjudgedCollision, unjudgedNested int
 		})
 	}
 	return out, unjudgedCollision, unjudgedNested
+}
+
+// neverOffered: the target accepted the recipients acc (AddRcpt returned nil, all for one
+// next hop) but the next hop accepted fewer DISTINCT mailboxes in this transaction than the
+// target did. Mailboxes are compared conservatively: local part byte for byte (a next hop may
+// treat it case-sensitively), domain case-insensitively in A-label form - so a target that
+// transmits byte-identical duplicates or domain-spelling variants of one mailbox only once
+// (the Delivery contract allows ignoring duplicates) is not accused. At least the difference
+// was never transmitted, so at least that many accepted recipients must carry a failure
+// result under their own address.
+func neverOffered(kind string, acc []string, wire []string, calls []call) []finding {
+	key := func(a string) string {
+		l, d := splitAddr(a)
+		if ad, err := idna.ToASCII(d); err == nil {
+			d = ad
+		}
+		return l + "@" + strings.ToLower(d)
+	}
+	accKeys := map[string]bool{}
+	for _, a := range acc {
+		accKeys[key(a)] = true
+	}
+	wireKeys := map[string]bool{}
+	for _, a := range wire {
+		wireKeys[key(a)] = true
+	}
+	deficit := len(accKeys) - len(wireKeys)
+	if deficit <= 0 {
+		return nil
+	}
+	failed := map[string]bool{}
+	for _, c := range calls {
+		if !c.Nil {
+			failed[key(c.Key)] = true
+		}
+	}
+	nf := 0
+	for k := range accKeys {
+		if failed[k] {
+			nf++
+		}
+	}
+	if nf >= deficit {
+		return nil
+	}
+	cls := "distinct-mailboxes"
+	lower := map[string]int{}
+	for k := range accKeys {
+		lower[strings.ToLower(k)]++
+	}
+	for _, n := range lower {
+		if n > 1 {
+			cls = "local-part-case-variants-in-one-transaction"
+		}
+	}
+	return []finding{{
+		Sig:  "leaf/missing-failure/" + kind + "/accepted-but-never-offered-to-next-hop/" + cls,
+		What: fmt.Sprintf("the target accepted %d distinct mailbox(es) %q for this next hop, the next hop was offered and accepted only %d (%q); only %d of the accepted ones carry a failure result, so %d accepted recipient(s) were neither transmitted nor reported as failed (a caller reads that as delivered)", len(accKeys), acc, len(wireKeys), wire, nf, deficit-nf),
+	}}
 }
